@@ -503,3 +503,276 @@ Proof.
   - destruct Hx.
   - apply in_app_or in Hx. destruct Hx as [Hx|[<-|[]]]; [left; exact Hx|right; exact Hy].
 Qed.
+
+(* ====================================================================== *)
+(* any schedule                                                           *)
+(* ====================================================================== *)
+
+Definition lflags (w : N) (inb int outb : bool) (q : lco) : Prop :=
+  l_we q = w /\ l_inb q = inb /\ l_int q = int /\ l_outb q = outb.
+
+(* the invariant of a page-link coroutine, relative to the job it was started as
+   (the part JInv of SchedFacts6 leaves open) *)
+Definition LJ (s : traph) (j : job) (c : coro) : Prop :=
+  match j, c with
+  | JLinks w ps inb int outb, CLinks q => LInv ps q s /\ lflags w inb int outb q /\ lshape q /\ lshape2 q
+  | _, _ => True
+  end.
+
+Definition LHInv (a0 : astate) (jobs : list job) (cl : list coro) (s : traph) (a : astate) (go gi : links) : Prop :=
+  HInv a0 jobs cl s a go gi /\ Forall2 (LJ s) jobs cl.
+
+Lemma LJ_ext : forall s s' j c, lext s s' -> LJ s j c -> LJ s' j c.
+Proof.
+  intros s s' j c Hx H. destruct j, c; cbn [LJ] in *; try exact I.
+  destruct H as (H1 & H2). split; [apply (LInv_ext _ _ _ _ Hx H1)|exact H2].
+Qed.
+
+Lemma LHInv_init : forall s0 a0 jobs, R s0 a0 -> Forall job_wf jobs ->
+  LHInv a0 jobs (map job_start jobs) s0 a0 (a_links a0) (a_links a0).
+Proof.
+  intros s0 a0 jobs HR Hwf. split; [apply (HInv_init s0 a0 jobs HR Hwf)|].
+  apply F2_map_r. intros j _. destruct j as [d|p k|ps|out auto|w ps inb int outb]; cbn [job_start LJ]; try exact I.
+  split; [apply LInv_start|]. split; [repeat split|]. split; intro E; discriminate.
+Qed.
+
+Definition lq_fuel (q : lco) (s : traph) : nat :=
+  (4 + length (l_prefixes q) + length (l_stack q) + 2 * (S (length (l_prefixes q))) * S (tree_size (tr s)))%nat.
+
+Lemma co_step_plinks : forall q s,
+  co_step (CLinks q) s = (CLinks (if l_done q then q else plinksq_step (lq_fuel q s) q s), s).
+Proof. intros q s. unfold co_step. cbn [co_done]. destruct (l_done q); reflexivity. Qed.
+
+Lemma LHInv_step : forall a0 jobs cl s a go gi i c, LHInv a0 jobs cl s a go gi ->
+  nth_error cl i = Some c ->
+  exists a' go' gi',
+    LHInv a0 jobs (set_nth_co i (fst (co_step c s)) cl) (snd (co_step c s)) a' go' gi' /\
+    lext s (snd (co_step c s)).
+Proof.
+  intros a0 jobs cl s a go gi i c (HG & HL) Hi.
+  destruct (HInv_step _ _ _ _ _ _ _ i c HG Hi) as (a' & go' & gi' & HG' & _).
+  pose proof (co_step_lext _ _ _ _ _ _ _ i c HG Hi) as Hx.
+  exists a', go', gi'. split; [|exact Hx]. split; [exact HG'|].
+  rewrite set_nth_co_eq. apply F2_set_nth.
+  - apply (F2_impl _ _ (LJ s)); [|exact HL]. intros x y. apply (LJ_ext _ _ _ _ Hx).
+  - intros j Hj. destruct (F2_nth _ _ _ _ _ _ _ HL Hi) as (j' & Hj' & HJ). rewrite Hj in Hj'. injection Hj' as <-.
+    destruct c as [b|r|q|n|lq].
+    + rewrite co_step_batch. destruct j; exact I.
+    + rewrite co_step_rule. destruct j; exact I.
+    + rewrite co_step_pages. destruct j; exact I.
+    + destruct (co_step_net n s) as (n' & E). rewrite E. destruct j; exact I.
+    + rewrite co_step_plinks. cbn [fst snd]. destruct j as [d|p k|ps|out auto|w ps inb int outb]; try exact I.
+      cbn [LJ] in *. destruct (l_done lq); [exact HJ|]. destruct HJ as (H1 & H2 & H3 & H4).
+      split; [apply (plinksq_step_sound ps s a go gi (H_s _ _ _ _ _ _ _ HG) _ lq H1)|].
+      split; [|apply plinksq_step_shape; split; assumption].
+      destruct (plinksq_step_same s (lq_fuel lq s) lq) as (E1 & E2 & E3 & E4).
+      destruct H2 as (F1 & F2 & F3 & F4). repeat split; congruence.
+Qed.
+
+Lemma LHInv_exec : forall a0 jobs sched cl s a go gi, LHInv a0 jobs cl s a go gi ->
+  exists a' go' gi', LHInv a0 jobs (fst (exec_sched sched cl s)) (snd (exec_sched sched cl s)) a' go' gi'.
+Proof.
+  intros a0 jobs sched. induction sched as [|i sched IH]; intros cl s a go gi HG.
+  - exists a, go, gi. exact HG.
+  - cbn [exec_sched]. destruct (nth_error cl i) as [c|] eqn:Hi; [|apply (IH _ _ _ _ _ HG)].
+    destruct (LHInv_step _ _ _ _ _ _ _ i c HG Hi) as (a1 & go1 & gi1 & HG1 & _).
+    destruct (co_step c s) as [c' s']. cbn [fst snd] in HG1. apply (IH _ _ _ _ _ HG1).
+Qed.
+
+(* the pairs whose chains have been written are links of the start state or links
+   submitted by one of the crawl batches *)
+Definition all_links (a0 : astate) (jobs : list job) : links :=
+  a_links a0 ++ flat_map links_of (datas_of jobs).
+
+Lemma HInv_go : forall a0 jobs cl s a go gi, HInv a0 jobs cl s a go gi ->
+  incl go (all_links a0 jobs) /\ incl gi (all_links a0 jobs).
+Proof.
+  intros a0 jobs cl s a go gi HG. split; intros x Hx.
+  - apply (Permutation_in _ (H_out _ _ _ _ _ _ _ HG)). apply in_or_app. left. exact Hx.
+  - apply (Permutation_in _ (H_in _ _ _ _ _ _ _ HG)). apply in_or_app. left. exact Hx.
+Qed.
+
+(* a triple qualifies in the state s of a run *)
+Definition lmoment (a0 : astate) (jobs : list job) (ps : list bytes) (w : N) (int outb : bool)
+                   (s : traph) (x : bytes * bytes * N) : Prop :=
+  exists a go gi, SInv s a go gi /\ incl go (all_links a0 jobs) /\ incl gi (all_links a0 jobs) /\
+                  lqual ps w int outb s go gi x.
+
+(* (L2) at any moment of any schedule, a turn of the query leaves its answer unchanged,
+   or empties it (refusal: no clause requested), or appends ONE triple that qualifies at
+   that moment *)
+Theorem C16_pagelinks_partial : forall jobs sched s0 a0 i w ps inb int outb q,
+  R s0 a0 -> Forall job_wf jobs ->
+  let cl := fst (exec_sched sched (map job_start jobs) s0) in
+  let s := snd (exec_sched sched (map job_start jobs) s0) in
+  nth_error jobs i = Some (JLinks w ps inb int outb) -> nth_error cl i = Some (CLinks q) ->
+  exists q', co_step (CLinks q) s = (CLinks q', s) /\
+    (l_acc q' = l_acc q \/ l_acc q' = [] \/
+     exists x, l_acc q' = l_acc q ++ [x] /\ lmoment a0 jobs ps w int outb s x).
+Proof.
+  intros jobs sched s0 a0 i w ps inb int outb q HR Hwf cl s Hj Hi.
+  destruct (LHInv_exec a0 jobs sched _ _ _ _ _ (LHInv_init s0 a0 jobs HR Hwf)) as (a & go & gi & HG & HL).
+  fold cl in HG, HL. fold s in HG, HL.
+  destruct (F2_nth _ _ _ _ _ _ _ HL Hi) as (j' & Hj' & HJ). rewrite Hj in Hj'. injection Hj' as <-.
+  cbn [LJ] in HJ. destruct HJ as (H1 & (F1 & F2 & F3 & F4) & _).
+  rewrite co_step_plinks. eexists. split; [reflexivity|].
+  destruct (l_done q); [left; reflexivity|].
+  destruct (plinksq_step_sound ps s a go gi (H_s _ _ _ _ _ _ _ HG) (lq_fuel q s) q H1) as (_ & [E|[E|(x & E & Hx)]]).
+  - left. exact E.
+  - right. left. exact E.
+  - right. right. exists x. split; [exact E|]. rewrite F1, F3, F4 in Hx.
+    destruct (HInv_go _ _ _ _ _ _ _ HG) as (I1 & I2). exists a, go, gi. split; [apply (H_s _ _ _ _ _ _ _ HG)|]. auto.
+Qed.
+
+(* every triple of the answer qualified at the moment of a turn of the query *)
+Lemma acc_hist : forall a0 jobs i w ps inb int outb, nth_error jobs i = Some (JLinks w ps inb int outb) ->
+  forall sched cl s a go gi q q2, LHInv a0 jobs cl s a go gi -> nth_error cl i = Some (CLinks q) ->
+  nth_error (fst (exec_sched sched cl s)) i = Some (CLinks q2) ->
+  forall x, In x (l_acc q2) ->
+    In x (l_acc q) \/
+    exists k, nth_error sched k = Some i /\
+              lmoment a0 jobs ps w int outb (snd (exec_sched (firstn k sched) cl s)) x.
+Proof.
+  intros a0 jobs i w ps inb int outb Hji. induction sched as [|j sched IH]; intros cl s a go gi q q2 HG Hi H2 x Hx.
+  - cbn [exec_sched fst] in H2. rewrite Hi in H2. injection H2 as <-. left. exact Hx.
+  - cbn [exec_sched] in H2. destruct (nth_error cl j) as [c|] eqn:Hj.
+    2:{ destruct (IH _ _ _ _ _ _ _ HG Hi H2 x Hx) as [H|(k & Hk & Hm)]; [left; exact H|right].
+        exists (S k). split; [exact Hk|]. cbn [firstn exec_sched]. rewrite Hj. exact Hm. }
+    destruct (LHInv_step _ _ _ _ _ _ _ j c HG Hj) as (a1 & go1 & gi1 & HG1 & _).
+    assert (Hlift : forall q1, nth_error (set_nth_co j (fst (co_step c s)) cl) i = Some (CLinks q1) ->
+              In x (l_acc q1) \/
+              exists k, nth_error (j :: sched) k = Some i /\
+                        lmoment a0 jobs ps w int outb (snd (exec_sched (firstn k (j :: sched)) cl s)) x).
+    { intros q1 Hq1. destruct (co_step c s) as [c' s'] eqn:Ec. cbn [fst snd] in *.
+      destruct (IH _ _ _ _ _ _ _ HG1 Hq1 H2 x Hx) as [H|(k & Hk & Hm)]; [left; exact H|right].
+      exists (S k). split; [exact Hk|]. cbn [firstn exec_sched]. rewrite Hj, Ec. exact Hm. }
+    destruct (Nat.eq_dec i j) as [<-|Hne].
+    + rewrite Hi in Hj. injection Hj as <-. rewrite co_step_plinks in Hlift. cbn [fst] in Hlift.
+      rewrite set_nth_co_eq in Hlift.
+      destruct (Hlift _ (nth_set_nth_same _ _ _ _ _ Hi)) as [H|H]; [|right; exact H].
+      destruct (l_done q); [left; exact H|].
+      destruct HG as (HG & HL). destruct (F2_nth _ _ _ _ _ _ _ HL Hi) as (j' & Hj' & HJ).
+      rewrite Hji in Hj'. injection Hj' as <-. cbn [LJ] in HJ. destruct HJ as (H1 & (F1 & F2 & F3 & F4) & _).
+      destruct (plinksq_step_new ps s a go gi (H_s _ _ _ _ _ _ _ HG) _ q H1 x H) as [K|K]; [left; exact K|right].
+      exists 0%nat. split; [reflexivity|]. cbn [firstn exec_sched snd]. rewrite F1, F3, F4 in K.
+      destruct (HInv_go _ _ _ _ _ _ _ HG) as (I1 & I2). exists a, go, gi. split; [apply (H_s _ _ _ _ _ _ _ HG)|]. auto.
+    + apply Hlift. rewrite set_nth_co_eq, nth_set_nth_other by exact Hne. exact Hi.
+Qed.
+
+Theorem C16_pagelinks_sandwich_partial : forall jobs sched s0 a0 i w ps inb int outb q2,
+  R s0 a0 -> Forall job_wf jobs ->
+  nth_error jobs i = Some (JLinks w ps inb int outb) ->
+  nth_error (fst (exec_sched sched (map job_start jobs) s0)) i = Some (CLinks q2) ->
+  forall x, In x (l_acc q2) ->
+    exists k, nth_error sched k = Some i /\
+      lmoment a0 jobs ps w int outb (snd (exec_sched (firstn k sched) (map job_start jobs) s0)) x.
+Proof.
+  intros jobs sched s0 a0 i w ps inb int outb q2 HR Hwf Hj H2 x Hx.
+  destruct (acc_hist a0 jobs i w ps inb int outb Hj sched _ _ _ _ _ (plinksq_start w ps inb int outb) q2
+              (LHInv_init s0 a0 jobs HR Hwf)) with (x := x) as [H|H]; try assumption.
+  - rewrite nth_error_map, Hj. reflexivity.
+  - destruct H.
+Qed.
+
+(* ====================================================================== *)
+(* the same read on the specification side                                *)
+(* ====================================================================== *)
+
+Lemma we_at_find_g : forall t nbk p d, wf_tst t -> addr_ok t nbk -> find p t = Some d ->
+  we_at (addr d) t = wwalk 0 t p.
+Proof.
+  intros t nbk p d Hwf Hok Hp. unfold we_at.
+  rewrite (find_unique _ _ _ (d, wwalk 0 t p)); [reflexivity| | |].
+  - apply dww_in; [apply Hwf|]. exists p. auto.
+  - cbn [fst]. apply N.eqb_refl.
+  - intros [d1 w1] Hin E. cbn [fst] in E. apply N.eqb_eq in E.
+    apply dww_in in Hin; [|apply Hwf]. destruct Hin as (q & Hq & Hw).
+    pose proof (proj2 Hok q p d1 d Hq Hp E) as Eq. subst q. rewrite Hq in Hp. injection Hp as ->.
+    rewrite Hw. reflexivity.
+Qed.
+
+Lemma owner_wwalk_g : forall s a l, Rcore s a -> owner a l = wwalk 0 (tr s) (lru_iter l).
+Proof.
+  intros s a l HC. unfold owner. rewrite <- (retrieve_webentity_spec_gen s a HC).
+  unfold retrieve_webentity, q_follow. rewrite follow_hist_from, wwalk_hist_from.
+  cbn [h_we hist0]. destruct (wwalk 0 (tr s) (lru_iter l) =? 0) eqn:E; [|reflexivity].
+  apply N.eqb_eq in E. symmetry. exact E.
+Qed.
+
+(* the webentity resolved from the block of a node is the owner of its LRU *)
+Lemma we_at_owner : forall s a p d, Rcore s a -> addr_ok (tr s) (nb s) -> find p (tr s) = Some d ->
+  we_at (addr d) (tr s) = owner a (concat p).
+Proof.
+  intros s a p d HC Hok Hf. pose proof (R_wf s a HC) as Hwf.
+  rewrite (we_at_find_g _ _ p d Hwf Hok Hf), (owner_wwalk_g s a _ HC).
+  destruct (wf_lru_of_path s p d Hwf Hf) as (_ & _ & ->). reflexivity.
+Qed.
+
+Definition lqual_spec (ps0 : list bytes) (w : N) (int outb : bool) (a : astate) (go gi : links)
+                      (x : bytes * bytes * N) : Prop :=
+  let '(src, dst, wt) := x in
+  (exists c, In (src, c) (a_pages a)) /\ (exists c, In (dst, c) (a_pages a)) /\
+  (((exists P0, In P0 ps0 /\ is_stem_prefix P0 src = true) /\ In (src, dst) go /\
+    ((outb = true /\ owner a dst <> w) \/ (int = true /\ owner a dst = w)))
+   \/
+   ((exists P0, In P0 ps0 /\ is_stem_prefix P0 dst = true) /\ In (src, dst) gi /\ owner a src <> w)).
+
+Lemma lqual_to_spec : forall ps0 w int outb s a go gi x, SInv s a go gi -> Forall wf_lru ps0 ->
+  lqual ps0 w int outb s go gi x -> lqual_spec ps0 w int outb a go gi x.
+Proof.
+  intros ps0 w int outb s a go gi [[src dst] wt] HS Hps (P0 & p & d & po & do & HP & Hu & Hf & Hpg & Hfo & Hpo & Hcl).
+  pose proof (SInv_facts _ _ _ _ HS) as (HC & Hwf & Hok & _). cbn [lqual_spec].
+  destruct (ViewFacts.find_nodeof s p d Hwf Hf) as (Hwl & Hn).
+  destruct (ViewFacts.find_nodeof s po do Hwf Hfo) as (Hwlo & Hno).
+  assert (Hp1 : exists c, In (concat p, c) (a_pages a)).
+  { exists (crawled d). apply (R_pages s a HC _ _ Hwl). exists d. auto. }
+  assert (Hp2 : exists c, In (concat po, c) (a_pages a)).
+  { exists (crawled do). apply (R_pages s a HC _ _ Hwlo). exists do. auto. }
+  assert (Hpre : exists P1, In P1 ps0 /\ is_stem_prefix P1 (concat p) = true).
+  { exists P0. split; [exact HP|]. unfold is_stem_prefix. apply mem_bytes_In. rewrite Forall_forall in Hps.
+    apply (is_prefix_iff (concat p) P0 Hwl (Hps P0 HP)).
+    destruct (wf_lru_of_path s p d Hwf Hf) as (_ & _ & ->). apply is_prefix_spec. exact Hu. }
+  rewrite (we_at_owner s a po do HC Hok Hfo) in Hcl.
+  destruct Hcl as [(<- & <- & _ & Hg & Hc)|(<- & <- & _ & Hg & Hc)].
+  - split; [exact Hp1|]. split; [exact Hp2|]. left. auto.
+  - split; [exact Hp2|]. split; [exact Hp1|]. right. auto.
+Qed.
+
+(* (L2), specification side: every triple of the answer was, at the moment of a turn of
+   the query, a link between two pages of an abstract state refined (in its tree part)
+   by the index at that moment, among the links of the start state and of the batches,
+   one end under a prefix of the query, the other end owned (internal clause) / not owned
+   (outbound, inbound clauses) by the webentity of the query *)
+Theorem C16_pagelinks_sandwich_partial_spec : forall jobs sched s0 a0 i w ps inb int outb q2,
+  R s0 a0 -> Forall job_wf jobs -> Forall wf_lru ps ->
+  nth_error jobs i = Some (JLinks w ps inb int outb) ->
+  nth_error (fst (exec_sched sched (map job_start jobs) s0)) i = Some (CLinks q2) ->
+  forall x, In x (l_acc q2) ->
+    exists k a, nth_error sched k = Some i /\
+      Rcore (snd (exec_sched (firstn k sched) (map job_start jobs) s0)) a /\
+      lqual_spec ps w int outb a (all_links a0 jobs) (all_links a0 jobs) x.
+Proof.
+  intros jobs sched s0 a0 i w ps inb int outb q2 HR Hwf Hps Hj H2 x Hx.
+  destruct (C16_pagelinks_sandwich_partial jobs sched s0 a0 i w ps inb int outb q2 HR Hwf Hj H2 x Hx)
+    as (k & Hk & a & go & gi & HS & I1 & I2 & Hq).
+  exists k, a. split; [exact Hk|]. split; [apply (SI_core _ _ _ _ HS)|].
+  pose proof (lqual_to_spec _ _ _ _ _ _ _ _ _ HS Hps Hq) as H. destruct x as [[src dst] wt]. cbn [lqual_spec] in *.
+  destruct H as (P1 & P2 & [(A & B & C)|(A & B & C)]); split; try assumption; split; try assumption.
+  - left. split; [exact A|]. split; [apply I1; exact B|exact C].
+  - right. split; [exact A|]. split; [apply I2; exact B|exact C].
+Qed.
+
+(* the other end of every pending item is the block of a page of the tree (LInv keeps the
+   membership in the chain; that chain targets are blocks of pages is part of SInv) *)
+Lemma LInv_items_nodes : forall ps0 q s a go gi, SInv s a go gi -> LInv ps0 q s ->
+  forall isout lru other wt, In (isout, lru, other, wt) (l_items q) ->
+  (exists P0 p d, In P0 ps0 /\ under (lru_iter P0) p /\ find p (tr s) = Some d /\ concat p = lru /\ page d = true /\
+                  In other (targets_of (stubs s) (head_dir isout d))) /\
+  (exists po do, find po (tr s) = Some do /\ addr do = other /\ page do = true /\ lru_at other s = concat po).
+Proof.
+  intros ps0 q s a go gi HS (_ & _ & Hit & _) isout lru other wt Hin.
+  rewrite Forall_forall in Hit. destruct (Hit _ Hin) as (P0 & p & d & HP & Hu & Hf & Hc & Hpg & Ht).
+  cbn [fst snd] in Hc, Ht. split; [exists P0, p, d; repeat split; assumption|].
+  destruct (chain_target s a go gi isout p d other HS Hf Ht) as (po & dq & H1 & H2 & H3 & H4 & _).
+  exists po, dq. repeat split; assumption.
+Qed.
